@@ -476,6 +476,25 @@ func TestProcessStalledUploads(t *testing.T) {
 	}
 }
 
+// TestProcessQueuedBehindHang - requests that arrive while EVERY worker is held by a request
+// that will outlive --timeout wait in the accept queue; when the hung workers are terminated
+// the waiting requests are served by their replacements, each by exactly one worker and to
+// the end (a worker on its way out takes no further request)
+func TestProcessQueuedBehindHang(t *testing.T) {
+	for i, c := range []procCase{
+		{Init: 1, Max: 1, Steps: []step{{Kind: "requests", Tokens: []string{"hang1"}}, {Kind: "wait", Ms: 500}, {Kind: "requests", Tokens: []string{"slow2", "slow3", "slow4"}}, {Kind: "wait", Ms: 4500}}},
+		{Init: 2, Max: 2, Steps: []step{{Kind: "requests", Tokens: []string{"hang1", "hang2"}}, {Kind: "wait", Ms: 600}, {Kind: "requests", Tokens: []string{"slow3", "slow4", "slow5", "slow6"}}, {Kind: "wait", Ms: 4500}}},
+		{Init: 1, Max: 2, Steps: []step{{Kind: "requests", Tokens: []string{"hang1", "hang2"}}, {Kind: "wait", Ms: 300}, {Kind: "requests", Tokens: []string{"slow3", "slow4"}}, {Kind: "wait", Ms: 900}, {Kind: "requests", Tokens: []string{"slow5", "fast6"}}, {Kind: "wait", Ms: 4000}}},
+	} {
+		fails, obs := runProcessScript(c)
+		for k, v := range obs.notObserved {
+			h.R.Count("not-observed: "+k, int64(v))
+		}
+		key, _ := json.Marshal(c)
+		h.R.Case(t, "process", string(key), c, []string{"queued-behind-hung-workers", fmt.Sprint("scenario-", i)}, true, fails)
+	}
+}
+
 func TestProcessScripts(t *testing.T) {
 	rapid.Check(t, func(rt *rapid.T) {
 		max := rapid.IntRange(1, 4).Draw(rt, "max")
